@@ -1,9 +1,10 @@
 import DeepModel.Props.C06
 #print axioms C06.c06_guard_class
-#print axioms C06.c06_total_partial
-#print axioms C06.c06_hostile_witness
-#print axioms C06.c06_total_refuted
-#print axioms C06.c06_watch_failure_contained
+#print axioms C06.c06_guards
+#print axioms C06.c06_total
+#print axioms C06.c06_probe_failure_contained
+#print axioms C06.c06_len_failure_contained
+#print axioms C06.c06_raise_means_no_children
 #print axioms C06.c06_placeholder
 #print axioms C06.c06_entry_local
 #print axioms C06.c06_shape_independent
